@@ -84,6 +84,32 @@ bool muffet_coin_toss_stub (const uint8_t prev_digest[16], unsigned int round_co
 }
 #endif
 #endif
+#if defined M_sha1crypt
+#include "alg-hmac-sha1.h"
+#include "alg-sha1.h"
+#ifndef XV_NATIVE
+/* contract of hmac_sha1_process_data (lib/alg-hmac-sha1.c), stub side:
+   requires r_ok (text, text_len), r_ok (key, key_len), w_ok (resbuf, 20)
+   assigns  resbuf[0..20)
+   ensures  resbuf is the MAC (arbitrary value here); ghost copy kept */
+unsigned char xv_hmac_last[20]; unsigned xv_hmac_calls; size_t xv_hmac_first_len;
+void hmac_sha1_process_data (const uint8_t *text, size_t text_len, const uint8_t *key, size_t key_len, void *resbuf)
+{
+  XV_STUBPRE ("C04", text_len == 0 || XV_R_OK (text, text_len), "hmac_sha1_process_data: text has text_len readable bytes");
+  XV_STUBPRE ("C04", XV_W_OK (resbuf, 20), "hmac_sha1_process_data: result buffer holds 20 bytes");
+  XV_STUBPRE ("C03", key == xv_phrase_p && key_len == xv_phrase_n, "the HMAC key is the whole phrase, in every iteration");
+  if (xv_hmac_calls == 0) xv_hmac_first_len = text_len;
+  if (xv_hmac_calls < 1000000) xv_hmac_calls++;
+  XV_HAVOC_SLICE (resbuf, 20);
+  XV_COPY16 (xv_hmac_last, (unsigned char *) resbuf);
+  XV_COPY4 (xv_hmac_last, (unsigned char *) resbuf, 16);
+}
+#endif
+#include "lib/crypt-pbkdf1-sha1.c"
+#define METHOD_FN crypt_sha1crypt_rn
+#define PREFIX "$sha1$"
+#define METHOD_CAN_FAIL 1
+#endif
 #if defined M_descrypt || defined M_bigcrypt || defined M_bsdicrypt
 #include "contracts/des_stubs.h"
 #include "lib/crypt-des.c"
@@ -381,12 +407,12 @@ void harness (void)
     int v0 = xv_b64_val (set[0]), v1 = set_len > 1 ? xv_b64_val (set[1]) : -1;
     XV_ASSERT ("C05,C06", v0 >= 0 && v1 >= 0, "success only with two salt characters from ./0-9A-Za-z");
     XV_ASSERT ("C06,C01", out[0] == set[0] && out[1] == set[1] && out[13] == 0, "2 salt characters + 11 hash characters + NUL");
-    XV_ASSERT ("C01,C03", xv_des_last_salt == (uint32_t) (v0 | (v1 << 6)) && xv_des_last_count == 25 && xv_des_blocks == 1,
+    XV_ASSERT ("C01,C03,C07", xv_des_last_salt == (uint32_t) (v0 | (v1 << 6)) && xv_des_last_count == 25 && xv_des_blocks == 1,
                "12-bit salt and 25 iterations reach the cipher");
     bool key_ok = true;
     for (unsigned i = 0; i < 8; i++)   /* XV_UNWIND 8 */
       if (xv_des_last_key[i] != (unsigned char) ((i < phr_len ? phr[i] : 0) << 1)) key_ok = false;
-    XV_ASSERT ("C03,C02", key_ok && xv_des_keys == 1, "the key is the first 8 phrase bytes shifted left by one bit, zero padded");
+    XV_ASSERT ("C03,C02,C07", key_ok && xv_des_keys == 1, "the key is the first 8 phrase bytes shifted left by one bit, zero padded (nothing else - in particular no scratch residue - enters it)");
     XV_ASSERT ("C06", gk >= 11 || xv_is_b64 (out[2 + gk]), "hash characters are from ./0-9A-Za-z");
   }
 #else
@@ -404,12 +430,12 @@ void harness (void)
     XV_ASSERT ("C05,C06", alpha, "success only with 8 count/salt characters from ./0-9A-Za-z");
     XV_ASSERT ("C06,C01", gk >= 9 || out[gk] == set[gk], "_ + count + salt are copied verbatim");
     XV_ASSERT ("C06", out[20] == 0 && (gk >= 11 || xv_is_b64 (out[9 + gk])), "11 hash characters + NUL");
-    XV_ASSERT ("C01,C03,C11", xv_des_last_salt == slt && xv_des_last_count == cnt, "24-bit salt and 24-bit count reach the cipher");
+    XV_ASSERT ("C01,C03,C07,C11", xv_des_last_salt == slt && xv_des_last_count == cnt, "24-bit salt and 24-bit count reach the cipher");
     bool key_ok = true;
     for (unsigned i = 0; i < 8; i++)   /* XV_UNWIND 8 */
       if (xv_des_first_key[i] != (unsigned char) ((i < phr_len ? phr[i] : 0) << 1)) key_ok = false;
-    XV_ASSERT ("C03", key_ok && xv_des_keys == (phr_len == 0 ? 1 : (phr_len + 7) / 8),
-               "every 8-byte block of the phrase is folded into the key (first block checked byte by byte)");
+    XV_ASSERT ("C03,C07", key_ok && xv_des_keys == (phr_len == 0 ? 1 : (phr_len + 7) / 8),
+               "every 8-byte block of the phrase is folded into the key; the first key is the first block XOR an all-zero IV (no scratch residue)");
   }
 #endif
 #if defined M_descrypt
@@ -450,6 +476,28 @@ void harness (void)
     XV_ASSERT ("C06", gk >= n || xv_passwd_safe (out[gk]), "every character is passwd-safe");
   }
   XV_ASSERT ("C03", xv_phrase_absorbed >= 1, "the whole phrase is absorbed by the digest");
+#endif
+
+#if defined M_sha1crypt
+  /* $sha1$<iterations>$<salt>[$...]: the result is $sha1$<iterations>$<salt>$
+     + 28 characters; everything before the digest is what strtoul parsed
+     (canonical decimal) and the salt characters verbatim */
+  {
+    size_t n = 0;
+    bool ended = false;
+    for (size_t k = 0; k < 384; k++)   /* XV_UNWIND 384 */
+      if (!ended) { if (out[k] == 0) ended = true; else n++; }
+    XV_ASSERT ("C04,C06", ended && n >= 6 + 1 + 1 + 1 + 1 + 28, "NUL-terminated inside the 384-byte output");
+    static const char pfx6[7] = "$sha1$";
+    bool pfxok = true;
+    for (unsigned i = 0; i < 6; i++)   /* XV_UNWIND 6 */
+      if (out[i] != (unsigned char) pfx6[i]) pfxok = false;
+    XV_ASSERT ("C06,C01", pfxok, "prefix $sha1$");
+    XV_ASSERT ("C06", out[n - 29] == '$' && (gk >= 28 || xv_is_b64 (out[n - 28 + gk])), "$ + 28 characters from ./0-9A-Za-z");
+    XV_ASSERT ("C06", gk >= n || xv_passwd_safe (out[gk]), "every character is passwd-safe");
+    XV_ASSERT ("C03", xv_hmac_calls >= 1, "the phrase keys the HMAC");
+    XV_ASSERT ("C01,C11", xv_dec_n == 2 && xv_dec_log[0].v == xv_dec_log[1].v, "the iteration count printed into the result is the one that was hashed");
+  }
 #endif
 #endif
 }
